@@ -219,8 +219,8 @@ def run_harness(unit, fn, tier='quick', timeout=300, mem_gb=24, default_data=4, 
     except Exception as e:
         return dict(fn=fn, status='inconclusive', why='show-properties failed: %r %s' % (e, (out + err)[-400:]), stats=total, unwindset=us)
 
-    def query(props, want_trace):
-        cmd = list(base) + ['--unwinding-assertions', '--json-ui', '--verbosity', '8']
+    def query(props, want_trace, slice_ok=True):
+        cmd = [x for x in base if slice_ok or x != '--slice-formula'] + ['--unwinding-assertions', '--json-ui', '--verbosity', '8']
         if want_trace:
             cmd += ['--trace']
         if us:
@@ -274,12 +274,19 @@ def run_harness(unit, fn, tier='quick', timeout=300, mem_gb=24, default_data=4, 
     if not real:
         return dict(fn=fn, status='inconclusive', why='harness has no assertion', stats=total, unwindset=us)
     for rounds in range(max_refine + 1):
-        res, why = query(real, True)
+        res, why = query(real, False)
         if res is None:
             return dict(fn=fn, status='inconclusive', why=why, stats=total, unwindset=us, log=log)
         if rounds < max_refine and refine(res):
             continue
         break
+    bad = [r['property'] for r in res if r['status'] == 'FAILURE' and '.unwind.' not in r['property']]
+    if bad:
+        # counterexample extraction: the failing properties again, unsliced (--slice-formula drops the recorded inputs)
+        res2, why = query(bad[:6], True, slice_ok=False)
+        if res2 is not None:
+            tr = {r['property']: r for r in res2}
+            res = [tr.get(r['property'], r) if r['property'] in bad else r for r in res]
     for r in res:
         d = r.get('description', '')
         p = r['property']
@@ -295,8 +302,9 @@ def run_harness(unit, fn, tier='quick', timeout=300, mem_gb=24, default_data=4, 
     # ---- query B: every reachability witness must FAIL (i.e. be reachable)
     reach_ok, reach_missing, samples = [], [], []
     if reach:
+        # B1: reachability of every witness (sliced, no trace)
         for rounds in range(max_refine + 1):
-            res, why = query(reach, True)
+            res, why = query(reach, False)
             if res is None:
                 return dict(fn=fn, status='inconclusive', why='witness query: ' + why, stats=total, unwindset=us, log=log)
             if rounds < max_refine and refine(res):
@@ -307,11 +315,16 @@ def run_harness(unit, fn, tier='quick', timeout=300, mem_gb=24, default_data=4, 
             if not d.startswith('reach:'):
                 continue
             if r['status'] == 'FAILURE':
-                reach_ok.append(d)
-                if len(samples) < 2:
-                    samples.append(dict(reach=d, inputs=trace_inputs(r.get('trace'))))
+                reach_ok.append((r['property'], d))
             else:
                 reach_missing.append(d)
+        # B2: one concrete witness input (unsliced, with trace) for the cross-validation on the g++ build
+        if reach_ok:
+            res2, why = query([reach_ok[-1][0]], True, slice_ok=False)
+            for r in res2 or []:
+                if r.get('description', '').startswith('reach:') and r['status'] == 'FAILURE':
+                    samples.append(dict(reach=r['description'], inputs=trace_inputs(r.get('trace'))))
+        reach_ok = [d for (_, d) in reach_ok]
     status = 'pass'
     why = ''
     if unwind_fail:
